@@ -543,12 +543,8 @@ Proof.
   now rewrite (transform_is_backtransformed_P np V T P n p HV HT HL).
 Qed.
 
-(* a decidable sufficient condition for [arr_ok]: V is an n x n array of vectors of length np.
-   (The runner reports this bit for the array of every generated case, see Extract/RunEsp.v.) *)
-Definition squareb (n np : nat) (V : list (list (list F))) : bool :=
-  Nat.eqb (length V) n &&
-  forallb (fun row => Nat.eqb (length row) n && forallb (fun v => Nat.eqb (length v) np) row) V.
-
+(* Esp.squareb (V is an n x n array of vectors of length np) is a decidable sufficient condition for
+   [arr_ok].  The runner reports this bit for the array of every generated case (Extract/RunEsp.v). *)
 Lemma squareb_arr_ok n np V : squareb n np V = true -> arr_ok np V.
 Proof.
   unfold squareb. rewrite andb_true_iff, Nat.eqb_eq, forallb_forall. intros [L H].
